@@ -2,7 +2,7 @@
 writer buffers, plus the expectation (canonical re-parse) and feature classification used by checks/c04.py.
 
 A document is a tree:  ("el", name, [(aname, avalue)...], [children])  |  ("t", units, tail)  |  ("c", units, tail)
-                       |  ("m", units)  |  ("p", target_units, data_units)
+                       |  ("m", units)  |  ("p", target_units, data_units)  |  ("r", units) = charactersRaw
 All strings are lists of UTF-16 code units.  `tail` (or None) is what lies behind `length` in the buffer handed
 to characters()/cdata() (None = a terminating NUL, the common case).
 """
@@ -190,6 +190,8 @@ def events(node):
         return ["m:" + hx(node[1])]
     if k == "p":
         return ["p:%s:%s" % (hx(node[1]), hx(node[2]))]
+    if k == "r":                      # charactersRaw (disable-output-escaping): the bulk write path of the writers
+        return ["r:" + hx(node[1])]
     raise ValueError(k)
 
 
@@ -212,7 +214,7 @@ def expected(node):
             for ch in n[3]:
                 walk(ch)
             out.append(("e", n[1]))
-        elif k in ("t", "c"):
+        elif k in ("t", "c", "r"):    # raw text is generated without markup characters: it reads back as itself
             text(n[1])
         elif k == "m":
             out.append(("m", n[1]))
@@ -335,6 +337,9 @@ def features(node, enc, ver):
             chars("text", n[1])
             if n[2] is not None:
                 feats.add("text+slice")
+        elif k == "r":
+            chars("text", n[1])
+            feats.add("raw-text")
         elif k == "c":
             chars("cdata", n[1])
             if n[2] is not None:
